@@ -60,6 +60,7 @@ NEEDS = {
  "C17c-dup-output-parent-stale": ("C17", ["C17", "C04"], "a copied rpc/action (grouping, augment body, submodule) with an output and a lookup that leaves the output through '..'"),
  "C20c-nested-writer-flattened": ("C20", ["C20"], "an indenting writer on top of another indenting writer with writes switching between the two in the middle of a line, or an inner prefix containing a line break"),
  "C18c-reset-after-early-return": ("C18", ["C18"], "a successful Process (or a read) fills the entry cache, then a load makes the next Process stop at linkage: the trees read afterwards are the stale ones"),
+ "C19c-fields-of-type-global-map": ("C19", ["C19"], "two goroutines loading independent module sets while a node type is converted for the first time in the process: unsynchronised package-level map"),
  "C20b-empty-write-clears-partial": ("C20", ["C20"], "zero-length Write in the middle of a line clears the mid-line flag: the next Write gets a prefix inside the line"),
  "C20-early-out-continued-line": ("C20", ["C20"], "short write of 1..len(prefix) bytes on a Write that continues a partial line returns 0 although caller bytes were written"),
 }
